@@ -325,7 +325,10 @@ def plan(ctx, ncases_override):
     for s in seq:
         dry = dry_run(ctx, s, 0); snaps = dry["snaps"]
         if len(snaps) < 3: continue
-        ks = sorted(set([2, len(snaps) // 2, len(snaps)])) if not thorough else sorted(set([2, 3, len(snaps) // 3, len(snaps) // 2, 2 * len(snaps) // 3, len(snaps) - 1, len(snaps)]))
+        if not thorough: ks = sorted(set([2, len(snaps) // 2, len(snaps)]))
+        else:
+            m = min(12, len(snaps) - 1)   # up to 12 snapshot pairs per scenario, evenly spread, always the first and the last
+            ks = sorted(set([2, 3, len(snaps) - 1, len(snaps)] + [2 + (j * (len(snaps) - 2)) // max(1, m - 1) for j in range(m)]))
         for k in ks:
             if k < 2 or k > len(snaps): continue
             sec = snapshot_sections(ctx, s, snaps[k - 1][3]); n = snaps[k - 1][2]; gb = sec.get("grid_bytes", 0); tr = sec.get("trailing", 0)
